@@ -643,6 +643,17 @@ func (w *World) ExternalRotate(part string, newSK bool) bool {
 	var sk []byte
 	var skCreated int64
 	latestSK := w.Store.Latest(skID)
+	if w.Opt.HomogeneousTime {
+		// the other process runs the same policy: truncated stamps, and it never
+		// creates an IK under an SK that is expired or revoked
+		pol := w.Procs[0].Policy
+		if pol.CreateDatePrecision > 0 {
+			now = verifhook.Now().Truncate(pol.CreateDatePrecision).Unix()
+		}
+		if latestSK != nil && (latestSK.Rec.Revoked || verifhook.Now().After(time.Unix(latestSK.Created, 0).Add(pol.ExpireKeyAfter))) {
+			newSK = true
+		}
+	}
 	if newSK || latestSK == nil {
 		if latestSK != nil && latestSK.Created >= now {
 			ev.Detail = "skip: SK stamp taken"
